@@ -118,12 +118,12 @@ class C03(Check):
                 "Pox.C03.matches_iff", "Pox.C03.lookup_spec_wire", "Pox.C03.miss_iff_wire", "Pox.C03.extract_ok",
                 "Pox.C03.subsumes_iff", "Pox.C03.subsumes_iff_forall",
                 "Pox.C03.matches_tos_defect", "Pox.C03.matches_prereq_defect", "Pox.C03.extract_arp_defect", "Pox.C03.exact_outranks_defect"]
-    anchors = [("pox/openflow/libopenflow_01.py", 957, 1013), ("pox/openflow/libopenflow_01.py", 1056, 1060),
-               ("pox/openflow/libopenflow_01.py", 1063, 1067), ("pox/openflow/libopenflow_01.py", 1238, 1244),
-               ("pox/openflow/libopenflow_01.py", 1327, 1341), ("pox/openflow/libopenflow_01.py", 1346, 1346),
-               ("pox/openflow/libopenflow_01.py", 1350, 1350), ("pox/openflow/libopenflow_01.py", 1353, 1372),
-               ("pox/openflow/libopenflow_01.py", 1411, 1458), ("pox/openflow/flow_table.py", 83, 83),
-               ("pox/openflow/flow_table.py", 225, 247), ("pox/openflow/flow_table.py", 320, 327)]
+    anchors = ()          # computed in setup() from the source: the bodies of ANCHORED (line numbers move with every fix commit)
+    ANCHORED = {"pox/openflow/libopenflow_01.py": {"ofp_match": ["from_packet", "get_nw_dst", "get_nw_src", "_normalize_wildcards", "_unwire_wildcards",
+                                                               "_wire_wildcards", "pack", "is_wildcarded", "is_exact", "unpack", "matches_with_wildcards"]},
+                "pox/openflow/flow_table.py": {"TableEntry": ["effective_priority", "is_matched_by", "is_idle_timed_out", "is_hard_timed_out"],
+                                               "FlowTable": ["add_entry", "remove_entry", "matching_entries", "_remove_specific_entries",
+                                                             "remove_expired_entries", "remove_matching_entries", "entry_for_packet"]}}
     trusted_base = ["models Model/Match.lean, Model/FlowTable.lean hand-written from ofp_match / FlowTable; tied by this correspondence run",
                     "Spec/OF10Match.lean: hand transcription of OpenFlow 1.0 §3.4 (12-tuple, Figure 4 header parsing, Table 3, prefix wildcards, exact-match priority); "
                     "its Python twin in harness/c03.py is cross-checked against it on every case",
@@ -156,6 +156,22 @@ class C03(Check):
         self.of, self.FlowTable, self.TableEntry, self.SoftwareSwitch, self.pkt = of, FlowTable, TableEntry, SoftwareSwitch, pkt
         self.IPAddr, self.EthAddr = IPAddr, EthAddr
         self._corpus = None
+        self.anchors = self.compute_anchors()
+
+    def compute_anchors(self):
+        import ast, os
+        out = []
+        for rel, classes in self.ANCHORED.items():
+            tree = ast.parse(open(os.path.join(common.REPO, rel)).read())
+            for node in tree.body:
+                if isinstance(node, ast.ClassDef) and node.name in classes:
+                    for fn in node.body:
+                        if isinstance(fn, ast.FunctionDef) and fn.name in classes[node.name]:
+                            body = fn.body
+                            if isinstance(body[0], ast.Expr) and isinstance(getattr(body[0], "value", None), ast.Constant) and isinstance(body[0].value.value, str):
+                                body = body[1:]
+                            out.append((rel, body[0].lineno, fn.end_lineno))
+        return out
 
     def parse(self, hexframe):
         return self.pkt.ethernet(bytes.fromhex(hexframe))
@@ -296,6 +312,43 @@ class C03(Check):
                 pm = self.of.ofp_match.from_packet(e, fr["port"], spec_frags=True)
                 codematch.append([1 if te.match.matches_with_wildcards(pm, consider_other_wildcards=False) else 0 for te in ents])
             return {"order": order, "eff": eff, "exact": exact, "lookups": lookups, "rx": rx if sw else None, "phdrs": phs, "wfs": wfs, "codematch": codematch}
+        if k == "tableops":
+            ft = self.FlowTable()
+            ents, trace, looks = {}, [], []
+            ids = lambda: [te._c03 for te in ft._table]
+            for op in case["ops"]:
+                raised = 0
+                try:
+                    if op[0] == "add":
+                        _, i, prio, w, idle, hard, now = op
+                        m = self.of.ofp_match(); m.unpack(bytes.fromhex(w), 0, flow_mod=True)
+                        te = self.TableEntry(priority=prio, match=m, actions=[], idle_timeout=idle, hard_timeout=hard, now=now / 1000.0)
+                        te._c03 = i
+                        ents[i] = te
+                        ft.add_entry(te)
+                    elif op[0] == "remove":
+                        ft.remove_entry(ents[op[1]])
+                    elif op[0] == "rm_match":
+                        m = self.of.ofp_match(); m.unpack(bytes.fromhex(op[1]), 0, flow_mod=True)
+                        ft.remove_matching_entries(m, priority=op[2], strict=op[3])
+                    elif op[0] == "expire":
+                        ft.remove_expired_entries(now=op[1] / 1000.0)
+                    elif op[0] == "lookup":
+                        e = self.parse(op[1])
+                        ph, wf = self.phdr_of(e)
+                        te = ft.entry_for_packet(e, op[2])
+                        pm = self.of.ofp_match.from_packet(e, op[2], spec_frags=True)
+                        present = ids()
+                        looks.append({"phdr": ph, "wf": wf, "present": present,
+                                      "codematch": {str(i): 1 if ents[i].match.matches_with_wildcards(pm, consider_other_wildcards=False) else 0 for i in present}})
+                        trace.append(["l", None if te is None else te._c03])
+                        continue
+                    else: raise ValueError(op[0])
+                except (ValueError, IndexError) as ex:
+                    if op[0] not in ("add", "remove"): raise
+                    raised = 1
+                trace.append(["t", raised, ids()])
+            return {"trace": trace, "looks": looks, "lookups": [t[1] for t in trace if t[0] == "l"]}
         raise ValueError(k)
 
     # ---------------------------------------------------------------- model side
@@ -323,6 +376,14 @@ class C03(Check):
                 ph, _ = self.phdr_of(self.parse(fr["frame"]))
                 frames.append({"phdr": ph, "port": fr["port"]})
             return {"op": "table", "entries": [[p, unpack_rec(bytes.fromhex(w))] for p, w in case["entries"]], "frames": frames}
+        if k == "tableops":
+            ops = []
+            for op in case["ops"]:
+                if op[0] == "add": ops.append(["add", op[1], op[2], unpack_rec(bytes.fromhex(op[3])), op[4], op[5], op[6]])
+                elif op[0] == "rm_match": ops.append(["rm_match", unpack_rec(bytes.fromhex(op[1])), op[2], bool(op[3])])
+                elif op[0] == "lookup": ops.append(["lookup", self.phdr_of(self.parse(op[1]))[0], op[2]])
+                else: ops.append(list(op))
+            return {"op": "tableops", "ops": ops}
 
     def impl_view(self, case, obs):
         k = case["kind"]
@@ -340,6 +401,8 @@ class C03(Check):
                  "rank": [spec_rank(p, r) for (p, _), r in zip(case["entries"], recs)]}
             if obs["rx"] is not None: v["rx"] = obs["rx"]
             return v
+        if k == "tableops":
+            return {"trace": obs["trace"]}
 
     def _wire(self, case):
         return all("w" in s for s in case["matches"])
@@ -356,6 +419,8 @@ class C03(Check):
             v = {kk: resp[kk] for kk in ("order", "eff", "exact", "lookups", "spec", "rank")}
             if case.get("via_switch"): v["rx"] = resp["lookups"]
             return v
+        if k == "tableops":
+            return {"trace": resp["trace"]}
 
     # ---------------------------------------------------------------- the property, on the real code's observables
     def _classify(self, r, h, got, ph):
@@ -406,30 +471,50 @@ class C03(Check):
             return None
         if k == "table":
             recs = [unpack_rec(bytes.fromhex(w)) for _, w in case["entries"]]
-            ranks = [spec_rank(p, r) for (p, _), r in zip(case["entries"], recs)]
+            flows = {i: (p, r) for i, ((p, _), r) in enumerate(zip(case["entries"], recs))}
             for fi, (ph, wf, fr, got) in enumerate(zip(obs["phdrs"], obs["wfs"], case["frames"], obs["lookups"])):
                 if wf < 2: continue
-                h = spec_headers(ph, fr["port"])
-                S = [i for i, r in enumerate(recs) if spec_match(r, h)]
                 if obs["rx"] is not None and obs["rx"][fi] != got:
                     return "lookup:frame %d rx_packet used entry %s, entry_for_packet %s" % (fi, obs["rx"][fi], got)
-                if got is None:
-                    if S:
-                        i = S[0]
-                        return "lookup:frame %d miss, entry %d matches why=%s" % (fi, i, self._classify(recs[i], h, False, ph))
-                    continue
-                if got not in S:
-                    return "lookup:frame %d returned entry %d which does not match why=%s" % (fi, got, self._classify(recs[got], h, True, ph))
-                best = max(S, key=lambda i: ranks[i])
-                if ranks[best] > ranks[got]:
-                    if obs["codematch"][fi][best]:
-                        rb = recs[best]
-                        why = ("priority-order" if not spec_exact(rb) else
-                               "exact-outranked" if (rb[DL_TYPE] == 0x0800 and rb[PROTO] in (1, 6, 17)) else "exact-non-l4-outranked")
-                    else:
-                        why = self._classify(recs[best], h, False, ph)
-                    return "lookup:frame %d returned entry %d (rank %d), entry %d (rank %d) matches why=%s" % (fi, got, ranks[got], best, ranks[best], why)
+                v = self._lookup_verdict(flows, got, ph, fr["port"], lambda i: obs["codematch"][fi][i], "frame %d" % fi)
+                if v: return v
             return None
+        if k == "tableops":
+            # the property on a history: each lookup answers with the best matching flow among those the table holds at that moment
+            flows = {op[1]: (op[2], unpack_rec(bytes.fromhex(op[3]))) for op in case["ops"] if op[0] == "add"}
+            looks = iter(obs["looks"])
+            for oi, op in enumerate(case["ops"]):
+                if op[0] != "lookup": continue
+                lk = next(looks)
+                if lk["wf"] < 2: continue
+                got = obs["trace"][oi][1]
+                present = {i: flows[i] for i in lk["present"]}
+                v = self._lookup_verdict(present, got, lk["phdr"], op[2], lambda i: lk["codematch"][str(i)], "op %d" % oi)
+                if v: return v
+            return None
+        return None
+
+    def _lookup_verdict(self, flows, got, ph, port, codematch, where):
+        """flows: id -> (priority, transmitted match) of the entries in the table; got: id the code returned or None"""
+        h = spec_headers(ph, port)
+        S = [i for i, (p, r) in flows.items() if spec_match(r, h)]
+        rank = lambda i: spec_rank(*flows[i])
+        if got is None:
+            if S:
+                i = S[0]
+                return "lookup:%s miss, entry %d matches why=%s" % (where, i, self._classify(flows[i][1], h, False, ph))
+            return None
+        if got not in S:
+            return "lookup:%s returned entry %d which does not match why=%s" % (where, got, self._classify(flows[got][1], h, True, ph))
+        best = max(S, key=rank)
+        if rank(best) > rank(got):
+            if codematch(best):
+                rb = flows[best][1]
+                why = ("priority-order" if not spec_exact(rb) else
+                       "exact-outranked" if (rb[DL_TYPE] == 0x0800 and rb[PROTO] in (1, 6, 17)) else "exact-non-l4-outranked")
+            else:
+                why = self._classify(rb := flows[best][1], h, False, ph)
+            return "lookup:%s returned entry %d (rank %d), entry %d (rank %d) matches why=%s" % (where, got, rank(got), best, rank(best), why)
         return None
 
     def finding_key(self, case, obs, failure):
@@ -460,6 +545,12 @@ class C03(Check):
         if k == "subsume" and len(case["pairs"]) > 1:
             for i in range(len(case["pairs"])):
                 c = dict(case); c["pairs"] = [case["pairs"][i]]; yield c
+        if k == "tableops":
+            for i in range(len(case["ops"])):
+                op = case["ops"][i]
+                if op[0] == "add" and any(o[0] == "remove" and o[1] == op[1] for o in case["ops"]): continue   # keep ids that are referred to
+                c = dict(case); c["ops"] = case["ops"][:i] + case["ops"][i + 1:]
+                if any(o[0] == "lookup" for o in c["ops"]): yield c
         if k == "table":
             if len(case["frames"]) > 1:
                 for i in range(len(case["frames"])):
@@ -629,6 +720,8 @@ class C03(Check):
         for i in range(6):
             cases.append(self.table_case(rng, frames, n=rng.choice([1, 5, 12, 40]), via_switch=(i % 2 == 0)))
         cases += self.table_witnesses()
+        for i in range(8):
+            cases.append(self.tableops_case(rng, frames, nops=[4, 10, 25, 60][i % 4]))
         self._corpus = cases
         return cases
 
@@ -699,6 +792,8 @@ class C03(Check):
         pool = fixed + [self.frame(rng) for _ in range(30)]
         for i in range(ntab):
             yield self.table_case(rng, pool, n=rng.choice([0, 1, 2, 3, 8, 20, 40, rng.randint(1, 40)]), via_switch=(i % 4 == 0))
+        for i in range(150 if tier == "quick" else 2500):
+            yield self.tableops_case(rng, pool, nops=rng.choice([3, 8, 20, 60, 90]))
         for c in self.local_and_subsume(rng, pool, 40 if tier == "quick" else 1200): yield c
 
     def search_cases(self, rng, tier):
@@ -732,6 +827,60 @@ class C03(Check):
         c = {"kind": "table", "entries": ents, "frames": [{"frame": fr, "port": port} for fr, port, _, _ in frames]}
         if via_switch: c["via_switch"] = True
         return c
+
+    def tableops_case(self, rng, pool, nops):
+        """a history on one FlowTable: adds (clustered priorities, many equal: the insertion position among equals is observable),
+        remove_entry of present and absent objects, remove_matching_entries (non-strict with broad matches; strict with a copy of
+        an installed match at the same / another priority), remove_expired_entries at an advancing clock, lookups in between.
+        Inputs of the open findings are kept out, as in table_case."""
+        frames = []
+        for _ in range(rng.randint(2, 4)):
+            for _try in range(20):
+                fr = rng.choice(pool); port = rng.choice([1, 2, 3])
+                ph, wf, h = self.headers_of(fr, port)
+                if self.trigger([0] * 13, ph) is None: break
+            frames.append((fr, port, ph, h))
+        prios = [rng.choice([0, 1, 100, 0x8000, 0xffff]) for _ in range(2)]
+        def flow():
+            while True:
+                fr, port, ph, h = rng.choice(frames)
+                if rng.random() < 0.2:
+                    r = self.near_rec(rng, h, ph, [], 0, 0, perturb=[rng.choice(FLAG_FIELDS)] if rng.random() < 0.2 else ())
+                    if not (r[DL_TYPE] == 0x0800 and r[PROTO] in (1, 6, 17)): continue
+                else:
+                    r = self.rand_rec(rng, h, ph)
+                    if spec_exact(r) and not (r[DL_TYPE] == 0x0800 and r[PROTO] in (1, 6, 17)): continue
+                if any(self.trigger(r, ph2) is not None for _, _, ph2, _ in frames): continue
+                return r
+        ops, now, nid, installed, everadded = [], 1000, 0, {}, []
+        while len(ops) < nops:
+            x = rng.random()
+            if x < 0.5 or not installed:
+                if len(installed) >= 40: continue
+                r = flow(); p = rng.choice(prios) if rng.random() < 0.85 else rng.randint(0, 0xffff)
+                ops.append(["add", nid, p, pack_rec(r).hex(), rng.choice([0, 0, 1, 5]), rng.choice([0, 0, 2, 10]), now])
+                installed[nid] = (p, r); everadded.append(nid); nid += 1
+            elif x < 0.58:
+                i = rng.choice(sorted(installed)) if rng.random() < 0.8 else rng.choice(everadded)   # sometimes an object that has left the table
+                ops.append(["remove", i]); installed.pop(i, None)
+            elif x < 0.66:
+                if rng.random() < 0.5:
+                    p, r = installed[rng.choice(sorted(installed))]
+                    ops.append(["rm_match", pack_rec(r).hex(), p if rng.random() < 0.6 else (p + 1) & 0xffff, True])
+                else:
+                    fr, port, ph, h = rng.choice(frames)
+                    r = self.near_rec(rng, h, ph, [f for f in FLAG_FIELDS if rng.random() < 0.8], rng.choice([32, 32, 24, 8]), rng.choice([32, 32, 24]))
+                    ops.append(["rm_match", pack_rec(r).hex(), 0, False])
+                installed = dict(installed)             # what is left is whatever the code leaves: ids are only used for later `remove`s
+            elif x < 0.72:
+                now += rng.choice([125, 1000, 1125, 2500, 6000])
+                ops.append(["expire", now])
+            else:
+                fr, port, ph, h = rng.choice(frames)
+                ops.append(["lookup", fr, port])
+            if rng.random() < 0.3: now += rng.choice([125, 250, 1000])
+        ops.append(["lookup", frames[0][0], frames[0][1]])
+        return {"kind": "tableops", "ops": ops}
 
     def local_and_subsume(self, rng, pool, n):
         for _ in range(n):
